@@ -1,6 +1,6 @@
 (* C10 - DestinationSSRC lists exactly the SSRCs the packet refers to.  Statements only (proofs: Proofs/Misc.v, EncReports.v ...). *)
 From RTCP Require Import Proofs.Tactics Model.Header Model.Reports Model.Xr Model.Packet Spec.Enc Spec.XrSpec Spec.Laws
-  Proofs.Misc Proofs.EncReports.
+  Proofs.Misc Proofs.EncReports Proofs.EncXr Proofs.PacketLevel Proofs.Extras.
 Local Open Scope N_scope.
 
 (* every packet value, no hypothesis (nested compounds included): the model's DestinationSSRC is the documented list
@@ -35,3 +35,18 @@ Print Assumptions C10_sr_roundtrip.
 Example C10_example : dest_packet (PSR (mkSR 9 0 0 0 0 [mkRRep 1 0 0 0 0 0 0; mkRRep 2 0 0 0 0 0 0] [])) = [1; 2; 9]
   /\ dest_packet (PCompound []) = [].
 Proof. split; reflexivity. Qed.
+
+(* the same list after an encode/decode round trip, for every supported packet type (own decoder and datagram decoder) and for XR *)
+Theorem C10_roundtrip : forall p, supported p = true -> in_D p = true ->
+  exists b p', marshal_packet p = Ok b /\ decode_as (tag_of_packet p) b = Ok p' /\ dest_packet p' = dest_packet p.
+Proof. exact dest_roundtrip. Qed.
+Print Assumptions C10_roundtrip.
+Theorem C10_roundtrip_datagram : forall p, supported p = true -> in_D p = true -> len (enc_spec p) < 262144 ->
+  exists b p', marshal_packet p = Ok b /\ Unmarshal b = Ok [p'] /\ dest_packet p' = dest_packet p.
+Proof. exact dest_roundtrip_datagram. Qed.
+Print Assumptions C10_roundtrip_datagram.
+Theorem C10_roundtrip_xr : forall x, D_XR x = true -> Forall wf_block (xr_blocks x) -> len (enc_XR x) < 262144 ->
+  exists b x', marshal_packet (PXR x) = Ok b /\ decode_as TXR b = Ok (PXR x') /\ Unmarshal b = Ok [PXR x'] /\
+               dest_packet (PXR x') = dest_packet (PXR x).
+Proof. exact XR_dest_roundtrip. Qed.
+Print Assumptions C10_roundtrip_xr.
